@@ -403,9 +403,16 @@ def check_support_sample_counts(ctx, F, tag, prefix="C19.R2"):
         elif t[0] == "call" and t[1].startswith("std::vec::Vec::<") and t[1].split("::")[-1] in ("new",):
             fs = facts_at(rb, bi)
             from guards import fact_zero
-            empty_ok = any(f[0] == "cmp" and f[1] == "Eq" and strip_casts(f[3])[:2] == ("const", 0) and
-                           any(x[0] == "call" and x[1].endswith("::len") for x in subterms(f[2])) for f in fs)
-            verdict, how = (True if empty_ok else False), "an empty vector%s" % ("" if empty_ok else " on a path that is not restricted to vectors of length 0")
+            def about_len(x):
+                return any(isinstance(y, tuple) and y and y[0] == "call" and y[1].split("::")[-1] in ("len", "is_empty") for y in subterms(x))
+            empty_ok = any(f[0] == "cmp" and f[1] == "Eq" and strip_casts(f[3])[:2] == ("const", 0) and about_len(f[2]) for f in fs) or \
+                any(f[0] == "bool" and f[2] is True and isinstance(f[1], tuple) and f[1][0] == "call" and f[1][1].split("::")[-1] == "is_empty" for f in fs)
+            # some other test of the length (a word / block count computed from it, ..) cannot be read here: undecided; a path that
+            # never looks at the length at all is the defect
+            other_len_test = any(f[0] in ("cmp", "bool") and any(about_len(x) for x in f[1:] if isinstance(x, tuple)) for f in fs) or \
+                any(f[0] == "cmp" and any(isinstance(x, tuple) and strip_casts(x)[0] == "var" for x in f[2:4]) for f in fs)
+            verdict = True if empty_ok else (None if other_len_test else False)
+            how = "an empty vector%s" % ("" if empty_ok else " on a path that is not restricted to vectors of length 0")
         ctx.ob(prefix + ".rank-samples-per-block", "bit_vector::rank_support::RankSupport::new|#%d%s" % (k, tag), loc(st["sp"]), verdict, "value-provenance", how, positive=verdict is False)
 
 
